@@ -762,7 +762,7 @@ func runPhpSer(w *Worker) {
 
 	r := w.Rand("values")
 	o := genOpts{utf8only: false, floats: true, intKeys: true, maxDepth: 4}
-	n := w.Pick(1000, 100000) / w.N
+	n := w.Pick(3000, 100000) / w.N
 	for i := 0; i < n; i++ {
 		v := genValue(r, o, 0)
 		if i%5 == 0 {
